@@ -8,3 +8,44 @@ def history(case, d):
 
 def rhistory(case, d):
     return impl_rag.run_history(case, d, want_regen=True)
+
+
+def overwrite(case, d):
+    """an array (or ragged array) is re-created over an existing one with overwrite=True: the README
+    must describe the NEW array, including whether metadata exist"""
+    import os
+    import numpy as np
+    import darr
+    from darr.array import readcodetxt
+    path = os.path.join(d, 'x.darr')
+    meta_old = {'a': 1} if case['meta_old'] else None
+    meta_new = {'b': 2} if case['meta_new'] else None
+    old = case['old']
+    if old == 'Array':
+        darr.asarray(path, np.arange(12, dtype='int64').reshape(4, 3), metadata=meta_old)
+    else:
+        darr.asraggedarray(path, [[1.5, 2.5], [3.5]], metadata=meta_old)
+    src = darr.asarray(os.path.join(d, 'src.darr'), np.arange(5, dtype='float32'), metadata=meta_new)
+    how = case['how']
+    try:
+        if how == 'asarray':
+            a = darr.asarray(path, np.arange(7, dtype='>i2'), metadata=meta_new, overwrite=True)
+        elif how == 'create_array':
+            a = darr.create_array(path, shape=(2, 2), dtype='uint8', metadata=meta_new, overwrite=True)
+        elif how == 'copy':
+            a = src.copy(path, overwrite=True)
+        elif how == 'asraggedarray':
+            a = darr.asraggedarray(path, [[1, 2, 3], [4]], metadata=meta_new, overwrite=True)
+        else:
+            raise ValueError(how)
+    except Exception as e:
+        return dict(res=['exc', type(e).__name__, str(e)[:150]])
+    readme = open(os.path.join(path, 'README.txt'), encoding='utf-8').read()
+    if how == 'asraggedarray':
+        from darr.raggedarray import readcodetxt as rreadcodetxt
+        regen = rreadcodetxt(darr.RaggedArray(path))
+    else:
+        regen = readcodetxt(darr.Array(path))
+    hasmeta = os.path.exists(os.path.join(path, 'metadata.json'))
+    return dict(res=['ok'], same=readme == regen, mentions='metadata.json' in readme, hasmeta=hasmeta,
+                expect_meta=bool(meta_new), listing=sorted(os.listdir(path)))
